@@ -46,6 +46,7 @@ def gen_listen_cases(ctx, cases, n_streams):
     for _ in range(n_streams):
         stream = H.gen_stream(rng)
         ops = H.gen_ops(rng)
+        H.environment(rng)
         n = len(stream)
         outs = H.gen_outcomes(rng, n)
         greet = rng.choice([None] * 6 + ['hello\r\n', '', '\xe9'])
@@ -85,6 +86,7 @@ def gen_send_cases(ctx, cases, n):
     rng = ctx.rng
     for _ in range(n):
         ops = H.gen_ops(rng)
+        H.environment(rng)
         rs = []
         for _ in range(rng.randrange(0, 6)):
             r = rng.random()
@@ -121,6 +123,11 @@ CORPUS = [
     (b'ab', [('S', 'Ā'), ('E', 'VE')], [1, 1]),
     (b'abc', [('S', 'ok'), ('E', 'VE'), ('E', 'KE')], [3]),
     (b'abc', [('S', 'ok'), ('E', 'VE'), ('E', 'KE')], [1, 2]),
+    # seeded change r2m3: `logging.debug(ex.args[0])` dies on a bare `raise ValueError`
+    (b'ab', [('E', 'VE0'), ('S', 'ok')], [2]),
+    (b'abc', [('E', 'VEcls'), ('E', 'KE0'), ('S', 'ok')], [1, 2]),
+    (b'ab', [('E', 'VEnoargs'), ('E', 'VEodd')], [2]),
+    (b'$verr0%%%%%$exc0%%%%%a', None, [11, 11]),
     (b'$system_stop%%%%%z', None, [10, 8]),
     (b'$system_stop%%%%%z', None, [1] * 18),
     (b'q$a$system_stop%%%%%%%', None, [5, 9, 8]),
@@ -129,8 +136,22 @@ CORPUS = [
 ]
 
 
+def load_corpus():
+    """CORPUS plus /verif/corpus/C01/*.json (stream hex, outcomes, segment lengths)"""
+    import glob
+    import json
+    import os
+    out = list(CORPUS)
+    d = os.path.join(os.path.dirname(os.path.dirname(os.path.abspath(__file__))), 'corpus', 'C01')
+    for f in sorted(glob.glob(os.path.join(d, '*.json'))):
+        o = json.load(open(f))
+        out.append((bytes.fromhex(o['stream']), [tuple(x) for x in o['outcomes']] if o.get('outcomes') else None,
+                    list(o['segments'])))
+    return out
+
+
 def corpus_cases(ctx, cases):
-    for stream, outs, seglens in CORPUS:
+    for stream, outs, seglens in load_corpus():
         outs = outs or [('F',)] * len(stream)
         ops = dict(H.OP_POOL)
         segs, i = [], 0
@@ -149,6 +170,7 @@ def correspondence(ctx):
     gen_send_cases(ctx, cases, ctx.n(300, 2000))
     for c in cases[:2] + cases[len(cases) // 2:len(cases) // 2 + 2]:
         ctx.sample(c[:600])
+    H.IO_SEED[0], H.STOP_EXC[0] = 0, None
     ctx.run_cases('server', 'From DS Require Import Model.SrvHandler Corr.SrvCorr.', 'scase', 'ok', cases,
                   show='show', shard=ctx.n(150, 400))
 
@@ -156,9 +178,10 @@ def correspondence(ctx):
 # ---------------------------------------------------------------------------
 # property-level oracle on the implementation
 
-def check_stream(stream, outs, ops, segs):
+def check_stream(stream, outs, ops, segs, stop_exc=None):
     """None if the real handler behaves as the property says on this segmentation, else
-    (klass, what)"""
+    (klass, what).  stop_exc: exception kind the fake Server.stop raises (it must be survived)"""
+    H.IO_SEED[0], H.STOP_EXC[0] = 0, stop_exc
     expected = H.spec_trace(stream, outs, ops)
     tr, cm, died = H.run_listen_tcp(None, outs, ops, [], segs)
     if died is not None:
@@ -176,7 +199,14 @@ def check_stream(stream, outs, ops, segs):
     return None
 
 
-def shrink(stream, outs, ops, seglens, klass):
+def io_failure_kills(stream, outs, ops, evs, fails, io_seed, stop_exc):
+    H.IO_SEED[0], H.STOP_EXC[0] = io_seed, stop_exc
+    tr, cm, died = H.run_listen_tcp(None, outs, ops, fails, evs)
+    H.IO_SEED[0], H.STOP_EXC[0] = 0, None
+    return died is not None
+
+
+def shrink(stream, outs, ops, seglens, klass, stop_exc=None):
     """greedy: drop one byte (and its outcome) at a time, merge segments, while it still fails
     with the same class"""
     def segs_of(st, lens):
@@ -190,7 +220,7 @@ def shrink(stream, outs, ops, seglens, klass):
         return segs
 
     def fails(st, ou, lens):
-        r = check_stream(st, ou, ops, segs_of(st, lens))
+        r = check_stream(st, ou, ops, segs_of(st, lens), stop_exc)
         return r is not None and r[0] == klass
     changed = True
     budget = 400
@@ -216,16 +246,16 @@ def shrink(stream, outs, ops, seglens, klass):
     return stream, outs, seglens
 
 
-def report(ctx, res, stream, outs, ops, segs):
+def report(ctx, res, stream, outs, ops, segs, stop_exc=None):
     klass, what = res
     seglens = [len(s) for s in segs]
     try:
-        stream, outs, seglens = shrink(stream, outs, ops, seglens, klass)
+        stream, outs, seglens = shrink(stream, outs, ops, seglens, klass, stop_exc)
     except Exception:   # noqa  (shrinking is best effort)
         pass
     ctx.fail(klass, what, dict(stream=stream.hex(), stream_text=stream.decode('latin-1'),
                                segments=seglens, outcomes=[list(o) for o in outs],
-                               ops={k: list(v) for k, v in ops.items()}))
+                               ops={k: list(v) for k, v in ops.items()}, stop_exc=stop_exc))
 
 
 def oracle(ctx):
@@ -233,37 +263,58 @@ def oracle(ctx):
     checked = 0
     found = set()
     todo = []
-    for stream, outs, seglens in CORPUS:
+    for stream, outs, seglens in load_corpus():
         segs, i = [], 0
         for k in seglens:
             segs.append(stream[i:i + k])
             i += k
-        todo.append((stream, outs or [('F',)] * len(stream), dict(H.OP_POOL), [segs]))
+        todo.append((stream, outs or [('F',)] * len(stream), dict(H.OP_POOL), [segs], None))
     for _ in range(ctx.n(700, 12000)):
         stream = H.gen_stream(rng, 6)
+        stop_exc = rng.choice(sorted(H.EXC_TABLE)) if rng.random() < 0.12 else None
         todo.append((stream, H.gen_outcomes(rng, len(stream)), H.gen_ops(rng),
-                     H.partitions(rng, stream, ctx.n(3, 6))))
-    for stream, outs, ops, parts in todo:
+                     H.partitions(rng, stream, ctx.n(3, 6)), stop_exc))
+    for stream, outs, ops, parts, stop_exc in todo:
         for segs in parts:
             checked += 1
-            res = check_stream(stream, outs, ops, segs)
+            res = check_stream(stream, outs, ops, segs, stop_exc)
             if res is not None and res[0] not in found:
                 found.add(res[0])
-                report(ctx, res, stream, outs, ops, segs)
+                report(ctx, res, stream, outs, ops, segs, stop_exc)
+        # socket failures (any kind of OSError from sendto / recv): the handler may stop relaying
+        # but no exception may leave it  (C01_no_death)
+        if rng.random() < 0.3:
+            checked += 1
+            fails = sorted(set(rng.randrange(0, 5) for _ in range(rng.randrange(1, 3))))
+            io_seed = rng.randrange(len(H.IO_ERRORS))
+            evs = list(parts[-1])
+            err_at = rng.randrange(len(evs) + 1) if rng.random() < 0.5 else None
+            if err_at is not None:
+                evs.insert(err_at, None)
+            if io_failure_kills(stream, outs, ops, evs, fails, io_seed, stop_exc) and 'io' not in found:
+                found.add('io')
+                ctx.fail('handler_dies', 'an exception left the handler when the socket failed (sendto/recv '
+                         'raising an OSError)',
+                         dict(stream=stream.hex(), stream_text=stream.decode('latin-1'),
+                              events=[None if e is None else len(e) for e in evs], fails=fails, io_seed=io_seed,
+                              outcomes=[list(o) for o in outs], ops={k: list(v) for k, v in ops.items()},
+                              stop_exc=stop_exc, io=True))
         # UDP: one datagram, newline appended
         if rng.random() < 0.3:
             checked += 1
             outs_u = outs + [('F',)]
+            H.IO_SEED[0], H.STOP_EXC[0] = 0, stop_exc
             tr, cm, died = H.run_listen_udp(outs_u, ops, [], stream)
             if died is not None or not H.same_trace(tr, H.spec_trace(stream + b'\n', outs_u, ops)):
                 if 'udp' not in found:
                     found.add('udp')
                     ctx.fail('udp', 'a datagram is not handled as the stream datagram+newline',
                              dict(stream=stream.hex(), outcomes=[list(o) for o in outs_u],
-                                  ops={k: list(v) for k, v in ops.items()}, udp=True))
+                                  ops={k: list(v) for k, v in ops.items()}, udp=True, stop_exc=stop_exc))
     stats = dict(checked=checked)
     if not ctx.quick():
         stats['loopback_connections'] = loopback(ctx, 150)
+    H.IO_SEED[0], H.STOP_EXC[0] = 0, None
     ctx.oracle_stats = stats
     ctx.evaluations += checked
 
@@ -290,6 +341,10 @@ def make_loop_system():
                 raise ValueError('refused')
             if byte == 'k':
                 raise KeyError('boom')
+            if byte == 'V':
+                raise ValueError          # bare, as the real parsers do
+            if byte == 'K':
+                raise KeyError
             if byte == '\x00':
                 return False
             if byte == 'n':
@@ -349,7 +404,7 @@ def loopback(ctx, n):
     from simulators import server as S
     rng = ctx.rng
     LoopSys = make_loop_system()
-    toks = [b'abc\n', b'hello world\n', b'v', b'k', b'\x00', b'n', b'$set_prefix:Q%%%%%', b'$counter%%%%%',
+    toks = [b'abc\n', b'hello world\n', b'v', b'k', b'V', b'K', b'\x00', b'n', b'$set_prefix:Q%%%%%', b'$counter%%%%%',
             b'$quiet%%%%%', b'$broken%%%%%', b'$nosuch:1,2%%%%%', b'$set_prefix:a:b%%%%%', b'$set_prefix%%%%%',
             b'$x$counter%%%%%', b'%%%%%', b'$counter%%%%', b'\n', b'xy', b'$counter:1%%%%%', b'\xe9\xff\n']
     done = 0
@@ -439,11 +494,18 @@ def replay(ctx, obj):
     stream = bytes.fromhex(w['stream'])
     outs = [tuple(o) for o in w['outcomes']]
     ops = {k: tuple(v) for k, v in w['ops'].items()}
+    if w.get('io'):
+        evs, i = [], 0
+        for k in w['events']:
+            evs.append(None if k is None else stream[i:i + k])
+            i += k or 0
+        return io_failure_kills(stream, outs, ops, evs, w['fails'], w['io_seed'], w.get('stop_exc'))
     if w.get('udp'):
+        H.IO_SEED[0], H.STOP_EXC[0] = 0, w.get('stop_exc')
         tr, cm, died = H.run_listen_udp(outs, ops, [], stream)
         return died is not None or not H.same_trace(tr, H.spec_trace(stream + b'\n', outs, ops))
     segs, i = [], 0
     for k in w['segments']:
         segs.append(stream[i:i + k])
         i += k
-    return check_stream(stream, outs, ops, segs) is not None
+    return check_stream(stream, outs, ops, segs, w.get('stop_exc')) is not None
